@@ -125,6 +125,24 @@ def binary(lane="rel"):
         return os.path.join(tdir, "release", "rws")
 
 
+def timeshift():
+    """Build the LD_PRELOAD clock shim (harness/timeshift.c); returns the path of the shared object or None when no C
+    compiler is available (the callers then skip their virtual-time phase and say so)."""
+    src = os.path.join(VERIF, "harness", "timeshift.c")
+    so = os.path.join(CACHE, "timeshift.so")
+    with _lock("timeshift"):
+        if os.path.exists(so) and os.path.getmtime(so) >= os.path.getmtime(src):
+            return so
+        for cc in ("cc", "gcc", "clang"):
+            try:
+                rc, out = _run([cc, "-shared", "-fPIC", "-O2", "-o", so, src, "-ldl"])
+            except OSError:
+                continue
+            if rc == 0:
+                return so
+    return None
+
+
 def fuzz_build():
     """cargo +nightly fuzz build (ASan + coverage instrumentation); returns (path to the fuzz binary, harness dir)"""
     with _lock("build-fuzz"):
